@@ -298,4 +298,38 @@ theorem msg_open_index (p : Bytes) (fs : List (Nat × Bytes)) (wf : MsgWF fs) :
     simp only [List.getElem_map] at h1 h2
     rw [h1, h2]
 
+/-- by index, exactly: entry `i` of the table is entry `i` of the sorted `(tag, end offset)` pairs -/
+theorem msg_open_sorted (p : Bytes) (fs : List (Nat × Bytes)) (wf : MsgWF fs) :
+    ∃ M, openMessageErr (p ++ encMsg fs) = .ok M ∧ M.fields = fs.length ∧
+      M.table.data = ((fs.map (·.2)).flatten).length ∧
+      (∃ rest, M.bytes = (fs.map (·.2)).flatten ++ rest) ∧
+      (sortedEntries (msgPairs fs)).length = fs.length ∧
+      ∀ i (hi : i < (sortedEntries (msgPairs fs)).length),
+        M.table.msgOffsetByIndex i = .ok (some ((sortedEntries (msgPairs fs))[i]).2) ∧
+        M.table.msgFieldEntry i = .ok (some ((sortedEntries (msgPairs fs))[i])) := by
+  obtain ⟨big, rest, hopen, hb⟩ := msg_open_view p fs wf
+  obtain ⟨V, hsorted, hlen', hml⟩ := msg_view fs wf big ((fs.map (·.2)).flatten).length hb
+  have hperm := sortedEntries_perm (msgPairs fs)
+  have hplen : (msgPairs fs).length = fs.length := by unfold msgPairs; simp
+  have helen : (sortedEntries (msgPairs fs)).length = fs.length := by rw [hperm.length_eq, hplen]
+  refine ⟨_, hopen, hml, rfl, ⟨rest, rfl⟩, helen, ?_⟩
+  intro i hi'
+  have hi : i < fs.length := by omega
+  refine ⟨?_, ?_⟩
+  · unfold Table.msgOffsetByIndex
+    have c : ¬ (i ≥ Table.msgLen ⟨encMsgTable big (sortedEntries (msgPairs fs)), ((fs.map (·.2)).flatten).length, big⟩) := by
+      rw [hml]; omega
+    simp only [c, ↓reduceIte]
+    have := V.offAt i (by simpa using hi')
+    simp only [List.getElem_map] at this
+    rw [this]
+  · unfold Table.msgFieldEntry
+    have c : ¬ (i ≥ Table.msgLen ⟨encMsgTable big (sortedEntries (msgPairs fs)), ((fs.map (·.2)).flatten).length, big⟩) := by
+      rw [hml]; omega
+    simp only [c, ↓reduceIte]
+    have h1 := V.tagAt i (by simpa using hi')
+    have h2 := V.offAt i (by simpa using hi')
+    simp only [List.getElem_map] at h1 h2
+    rw [h1, h2]
+
 end SpecVerif
